@@ -92,6 +92,9 @@ def coq_build(targets, timeout):
 def props_audit(pid, timeout):
     """Recompile Props/<ID>.v capturing its output; returns (obligations, discharged, problems, names)."""
     vo = os.path.join(COQ, 'Props', pid + '.vo')
+    # first bring every dependency up to date (their own output, e.g. Print Assumptions lines inside proof files, must not be
+    # mistaken for the output of the Props file), then recompile the Props file alone and capture what it prints
+    coq_build(['Props/%s.vo' % pid], timeout)
     if os.path.exists(vo):
         os.remove(vo)
     ok, out, fails, dt = coq_build(['Props/%s.vo' % pid], timeout)
@@ -215,6 +218,9 @@ def evaluate_outdir(run, outdir, r):
                 r['errors'].append('no verdict for case %d in %s' % (k, os.path.basename(vf)))
                 continue
             c['_verdict'] = v
+            for cname, ci in run.get('counters', {}).items():
+                if ci < len(v):
+                    r['stats'][cname] = r['stats'].get(cname, 0) + v[ci]
             if 'layout' in run:       # per-case layout: (indices compared with the model, indices of monitors)
                 ai, mi = run['layout'](c, v)
             else:
@@ -394,7 +400,28 @@ def run_check(pid, P, tier, seed, replay, t0):
     if P.get('inventory'):
         known_sites = json.load(open(os.path.join(VERIF, 'panic_inventory.json')))['sites']
         cur = rg.get('panic_inventory', {})
-        new_sites = sorted(k for k in cur if k not in known_sites)
+        # a site is identified by file + kind + normalised statement text: moving it into a helper function of the same file, binding
+        # the result to a `let`, or dropping a borrow does not make it new (the committed keys hold at most 70 characters of the
+        # statement, so a committed text that is a prefix of the current one - or the reverse - of at least 30 characters is the same site)
+        def ft(k):
+            a = k.split('::', 2)
+            if len(a) != 3:
+                return (k, '', '')
+            m = re.match(r'^(.*?) in `(.*)`$', a[2])
+            kind, txt = (m.group(1), m.group(2)) if m else (a[2], '')
+            txt = re.sub(r'^\s*let\s+(mut\s+)?\w+\s*(:[^=]*)?=\s*', '', txt)
+            txt = re.sub(r'[&\s;]', '', txt)
+            return (a[0], kind, txt)
+        known_ft = [ft(k) for k in known_sites]
+        def is_known(k):
+            if k in known_sites:
+                return True
+            f, kind, txt = ft(k)
+            for f2, kind2, txt2 in known_ft:
+                if f == f2 and kind == kind2 and (txt == txt2 or (min(len(txt), len(txt2)) >= 30 and (txt.startswith(txt2) or txt2.startswith(txt)))):
+                    return True
+            return False
+        new_sites = sorted(k for k in cur if not is_known(k))
         if new_sites:
             violations.append(('inventory', 'panic-capable operations not covered by the C15 model (not in panic_inventory.json): ' + '; '.join(new_sites[:8]), {'new_sites': new_sites}, False))
         notes.append('panic inventory: %d sites in the source, %d classified, %d new' % (len(cur), len(known_sites), len(new_sites)))
